@@ -79,9 +79,26 @@ def discharge(ob, tier, timeout, extra=()):
     if ob.goal.is_const and ob.goal.val is False and ob.kind == 'U':
         return dict(verdict='unsupported', solver=None, seconds=0.0, log=[])
     asserts = inst_hyps(ob) + list(extra) + [tm.mk_not(ob.goal)]
+    if theory == 'strings2':
+        # regular constraints over one string variable: decided by the automata back end (regauto)
+        from . import regauto
+        t0 = time.time()
+        try:
+            ra = regauto.decide(asserts)
+        except RecursionError:
+            ra = None
+        if ra is not None:
+            dt = time.time() - t0
+            ra_res = dict(verdict=ra[0], solver='regauto', seconds=dt, log=[('regauto', ra[0], round(dt, 3))], model=ra[1])
+            if not (tier == 'thorough' and ob.kind != 'canary'):
+                return ra_res
+    else:
+        ra = None
     if tier == 'thorough' and ob.kind != 'canary':
         res = None
         logs = []
+        if ra is not None:      # thorough: the SMT solvers are asked as well; a definite answer that differs is a checker error
+            res, logs = ra_res, list(ra_res['log'])
         for s in order:
             r = solve.check(asserts, solvers=(s,), timeout=timeout)
             logs.extend(r['log'])
